@@ -494,7 +494,7 @@ func (c *genctx) genServerScenario(bad bool) *scenario {
 			}
 		default: // trailers
 			block := enc.block(p.trailers)
-			u := c.headerUnit(p.sid, block, true, false)
+			u := c.headerUnit(p.sid, block, true, true)
 			emit(u)
 			stage[i] = 99
 			pendingDone = append(pendingDone, p.sid)
